@@ -39,8 +39,13 @@ def positions(spec, cn, rng, n_extra=4):
                     out.append((f"L{lv}:{nm}", p))
         for _ in range(2):
             i = rng.randrange(N * 2 ** lv)
-            out.append((f"L{lv}:centre", g + (i + 0.5) * d))
+            c = g + (i + 0.5) * d
+            out.append((f"L{lv}:centre", c))
             out.append((f"L{lv}:cell-face", g + i * d))
+            # a cell centre up to the rounding of however the caller computed it (a few units in the last place off)
+            k = rng.choice([1, 2, 3])
+            out.append((f"L{lv}:centre+ulps", float(np.nextafter(c, np.inf)) if k == 1 else c + k * float(np.spacing(c))))
+            out.append((f"L{lv}:centre-ulps", c - k * float(np.spacing(c))))
     for _ in range(n_extra):
         out.append(("random", g + rng.randrange(1, N * 64) * d0 / 64))
     seen, uniq = set(), []
@@ -106,6 +111,40 @@ def spec_value(spec, levels, cn, pos):
     return val, min(gl, gr), gl, gr
 
 
+def dyadic(spec):
+    """all cell sizes and the origin are dyadic rationals of small height: every float operation of the tool is exact"""
+    def ok(x):
+        f = Fr(x)
+        return f.denominator & (f.denominator - 1) == 0 and f.denominator <= 2 ** 20 and abs(f.numerator) < 2 ** 30
+    return all(ok(x) for x in list(spec["dx0"]) + list(spec["geo_low"]))
+
+
+GL_CANDS = set()      # grid levels of the admissible positions of the last call of spec_candidates
+
+
+def spec_candidates(spec, levels, cn, pos):
+    """The specification is discontinuous in the position where the set of bracketing samples changes (cell centres, half a
+    cell from a box face).  On meshes whose numbers are dyadic the tool's float arithmetic is exact and the side is decided;
+    otherwise a position within rounding of such a point may fall on either side: the admissible values are those of the
+    position itself and of the positions a rounding error below and above it.  Returns (spec at pos, [admissible values])."""
+    sv = spec_value(spec, levels, cn, pos)
+    fp = Fr(pos)
+    if dyadic(spec) and fp.denominator <= 2 ** 20:
+        GL_CANDS.clear()
+        if sv is not None:
+            GL_CANDS.add(sv[1])
+        return sv, ([float(sv[0])] if sv is not None else [])
+    g = spec["geo_low"][cn]; G = g + spec["grid0"][cn] * spec["dx0"][cn]
+    eps = 64 * float(np.spacing(max(abs(pos), abs(g), abs(G), spec["dx0"][cn])))     # a few dozen units in the last place
+    out = []
+    GL_CANDS.clear()
+    for p in (pos, pos - eps, pos + eps):
+        v = spec_value(spec, levels, cn, p)
+        if v is not None:
+            out.append(float(v[0])); GL_CANDS.add(v[1])
+    return sv, out
+
+
 def run_slice(path, fields, limit, serial, cn, pos, start=None, cache=None):
     """cache: reuse one Mandoline object for several slices (the object keeps normal and position)"""
     from amr_kitchen.mandoline.mandoline import Mandoline
@@ -162,23 +201,26 @@ def run_case(ctx, rep, spec, cn, posname, pos, fields, limit, serial, model, pat
         garr = np.asarray(out["grid_level"]) if do_grid else None
         for (px, py), levels in cols.items():
             got = arr[py, px]
-            sv = spec_value(spec, levels, cn, pos)
+            sv, cands = spec_candidates(spec, levels, cn, pos)
+            knife = len(cands) > 1 and max(cands) - min(cands) > TOL * max(1.0, max(abs(c) for c in cands))
             what = None
             if np.isnan(got):
                 what = "pixel computed from never-written memory (NaN taint)"
-            elif sv is None:
+            elif not cands:
                 what = "specification has no sample for a pixel the tool answers"
             else:
-                want = float(sv[0])
+                want = min(cands, key=lambda c: abs(got - c))
+                if knife:
+                    rep.count("position-within-rounding-of-a-discontinuity")
                 if abs(got - want) > TOL * max(1.0, abs(want)):
-                    what = f"pixel value {got} is not the interpolation of the bracketing samples ({want})"
+                    what = f"pixel value {got} is not the interpolation of the bracketing samples ({sorted(set(cands))})"
                 elif do_grid and fname == flist[0]:
                     gg = garr[py, px]
                     if np.isnan(gg) or gg < -1e9:
                         what = "grid_level read from never-written memory"
                     elif not levels[int(gg)] if 0 <= int(gg) <= L else True:
                         what = f"grid_level {gg} is a level without a box at this pixel"
-            if what is None and mode == "affine" and sv is not None and sv[2] == sv[3]:
+            if what is None and mode == "affine" and sv is not None and sv[2] == sv[3] and not knife:
                 # closed form: both samples from one level -> exactly c0 + c_n*pos + in-plane terms of that level's cell
                 lv = sv[2]
                 dn = spec["dx0"][cn] / 2 ** lv
@@ -198,10 +240,10 @@ def run_case(ctx, rep, spec, cn, posname, pos, fields, limit, serial, model, pat
                 nbad += 1
                 if nbad <= 2:
                     rep.fail(what, dict(case, pos=pos, pixel=[px, py], field=fname))
-            elif batch is not None and mode in ("smallint", "levelconst", "affine"):
+            elif batch is not None and mode in ("smallint", "levelconst", "affine") and not knife and sv is not None:
                 cfg = {"op": "column", "fixed": True, "N": spec["grid0"][cn], "g": J(spec["geo_low"][cn]), "G": J(G), "d0": J(spec["dx0"][cn]), "pos": J(pos),
                        "levels": [[{"a": a, "vals": [J(float(v)) for v in vals]} for a, vals in bs] for bs in levels]}
-                batch.append((case, (px, py), float(got), float(garr[py, px]) if do_grid else None, cfg))
+                batch.append((case, (px, py), float(got), float(garr[py, px]) if (do_grid and len(GL_CANDS) == 1) else None, cfg))
     if do_grid and not flist:
         garr = np.asarray(out["grid_level"])
         if np.isnan(garr).any() or (garr < -1e9).any():
@@ -240,7 +282,7 @@ def run(ctx, rep, model=True):
         spec = plotgen.random_spec(ctx.rng, ndims=3, nlev=[2, 3, 1, 2][i % 4], nf=[2, 3][i % 2],
                                    data=["smallint", "affine", "levelconst"][i % 3], B=2,
                                    nblk=[[2, 2, 1], [1, 2, 2], [2, 1, 2]][i % 3], origin=True, aniso=True, refine_p=0.5,
-                                   layout="scatter")
+                                   layout="scatter", exact=(i % 4 != 3))     # every fourth mesh: cell sizes / origin that are no dyadic numbers
         path = ctx.newdir("c07_")
         truth = plotgen.materialize(spec, path)
         names = list(dedup_names(spec["fields"]))
